@@ -59,8 +59,10 @@ def dump_body(b, out=sys.stdout):
         else: print('    %s   @%s'%(k,loc),file=out)
 if __name__=='__main__':
     pat=sys.argv[1]; which=sys.argv[2] if len(sys.argv)>2 else None
-    for fn in glob.glob('/verif/cache/facts/*/*-A.json'):
-        d=json.load(open(fn))
+    sys.path.insert(0,'/verif/engine')
+    import facts as _facts
+    _fa,_=_facts.load('A')
+    for d in _fa.values():
         for f in d['fns']:
             if pat in f['path']:
                 print('=== ',f['path'], f['kind'], f.get('sig',''))
